@@ -7,3 +7,28 @@ From RS Require Import Base Network NetSpec Tour SchedObs Output OutStmts OutFac
 Theorem C03_once_each_is_permutation : stmt_once_each_perm.
 Proof. exact once_each_perm. Qed.
 Print Assumptions C03_once_each_is_permutation.
+
+(** the JSON rendered (Render.v = schedule_to_json, compared with the returned JSON on every run) from a schedule that
+    satisfies the schedule-level invariants passes all seven clauses of check_C03, provided the network lists its
+    service trips consistently (true of every loaded network: [load_services_listed]) and the tours' end nodes are the
+    listed depot nodes; with the invariants alone four clauses hold and the full statement is refuted by network
+    RECORDS no instance produces *)
+From RS Require Import LoadStmts Schedule SchedInv SchedStruct Render RenderStmts RenderFacts3.
+Theorem C03_rendered_output_complete_and_consistent :
+  forall nw, net_fine nw -> services_listed nw -> forall s out,
+    ToursOK nw s -> ListingOK nw s -> FormsOK nw s -> UsageOK nw s -> EndsListed nw s ->
+    render nw s = Ok out -> check_C03 nw out = [].
+Proof. exact render_C03_under_listed. Qed.
+Print Assumptions C03_rendered_output_complete_and_consistent.
+Theorem C03_loaded_networks_list_their_trips :
+  forall i perm nw, valid_instance_b i = true -> load i perm = Ok nw -> services_listed nw.
+Proof. exact load_services_listed. Qed.
+Print Assumptions C03_loaded_networks_list_their_trips.
+Theorem C03_rendered_partial :
+  forall nw, net_fine nw -> forall s out, ToursOK nw s -> ListingOK nw s -> FormsOK nw s -> UsageOK nw s ->
+    render nw s = Ok out -> forall c, In c (check_C03 nw out) -> c = 301 \/ c = 303 \/ c = 306.
+Proof. exact render_C03_partial. Qed.
+Print Assumptions C03_rendered_partial.
+Theorem C03_rendered_unrestricted_refuted : ~ (forall nw, stmt_render_C03 nw).
+Proof. exact render_C03_refuted. Qed.
+Print Assumptions C03_rendered_unrestricted_refuted.
